@@ -1,3 +1,4 @@
+import Deltio.Lemmas.SysInv
 import Deltio.Model.System
 import Deltio.Props.C10
 /-
@@ -158,5 +159,34 @@ example :
     (s4.rpc (.listTopicSubs T 0 [])).2 = .names [] [] ∧
     (s4.rpc (.getSub S)).2 = .sub { name := S, topic := deletedTopicStr, ackSecs := 10, push := none } := by
   decide
+
+
+/-! ### Over all histories -/
+
+/-- At every moment of every sequential history: the subscription list of every live topic is
+    exactly the live subscriptions created on it (same internal topic id), in creation order —
+    whatever creations, deletions, re-creations under old names, publishes and pulls came before. -/
+theorem C11_list_eq (ops : List SysOp) :
+    ∀ t ∈ (Sys.init.execOps ops).topics,
+      t.subs = ((Sys.init.execOps ops).subs.filter (fun e => e.topicId == t.tid)).map (fun e => (e.name, e.sid)) := by
+  intro t ht
+  have h := SysInv_all ops
+  have := h.attach ⟨t.tid, t.name, t.subs⟩ (by simp only [Sys.tsh, List.mem_map]; exact ⟨t, ht, rfl⟩)
+  simp only [attachedOf, Sys.ssh, List.filter_map, List.map_map] at this
+  exact this
+
+/-- … and what ListTopicSubscriptions answers (one page, size ≥ the number of subscriptions) is
+    exactly their canonical names. -/
+theorem C11_list_response (ops : List SysOp) (raw : Bytes) (n : Name) (t : TopicEnt) (hp : parseTopicName raw = some n)
+    (hf : (Sys.init.execOps ops).findTopic n = some t) (p : Paging) (hpg : parsePaging 1000 [] = some p) :
+    ∃ next, ((Sys.init.execOps ops).rpc (.listTopicSubs raw 1000 [])).2 =
+      .names (p.page ((((Sys.init.execOps ops).subs.filter (fun e => e.topicId == t.tid)).map (fun e => displaySub e.name)))) next := by
+  have ht : t ∈ (Sys.init.execOps ops).topics := List.mem_of_find?_eq_some hf
+  have hl := C11_list_eq ops t ht
+  have hb : bytesToNats [] = [] := rfl
+  simp only [Sys.rpc, hp, hf, hb, hpg, Sys.listPage]
+  rw [hl]
+  simp only [List.map_map, Function.comp]
+  exact ⟨_, rfl⟩
 
 end Deltio
